@@ -143,10 +143,12 @@ def reference(pool: dict, job: dict) -> dict:
 
 
 def draw_strategy(rng: random.Random, est_events: int, t0_events: int) -> dict:
-    k = rng.choice(["random", "random", "site", "site", "pct", "skew"])
+    k = rng.choice(["random", "random", "random", "repo", "repo", "site", "site", "pct", "skew"])
     gcp = sorted(rng.randrange(1, max(2, est_events)) for _ in range(rng.choice([0, 0, 1, 3])))
     if k == "random":
-        return {"kind": "random", "mean_gap": rng.choice([30, 300, 3000, 30000]), "gc_points": gcp, "max_switches": 5000}
+        return {"kind": "random", "mean_gap": rng.choice([10, 30, 100, 300, 3000, 30000]), "gc_points": gcp, "max_switches": 5000}
+    if k == "repo":
+        return {"kind": "repo", "p_line": rng.choice([0.01, 0.05, 0.2, 0.5]), "p_entry": rng.choice([0.0, 0.0005, 0.005]), "gc_points": gcp, "max_switches": 8000}
     if k == "site":
         return {"kind": "site", "p": rng.choice([0.001, 0.01, 0.05]), "burst_rate": rng.choice([0.0, 0.0005, 0.002]), "burst_len": rng.choice([4, 8, 16]),
                 "gc_points": gcp, "max_switches": 5000}
@@ -159,10 +161,12 @@ def gen_plan(pool: dict, rng: random.Random) -> list[list[dict]]:
     nthreads = rng.choice([2, 2, 3, 4])
     nt, nd, ns = len(pool["texts"]), len(pool["docs"]), len(pool["ssbs"])
     plan = []
+    # swarm: some runs are all-compile, some all-decompile (state shared by one kind of call needs two of a kind at once)
+    mix = rng.choice([["C"], ["D", "D", "S"], ["C", "C", "D", "D", "D", "S", "SC"], ["C", "C", "D", "D", "D", "S", "SC"]])
     for _ in range(nthreads):
         jobs = []
         for _ in range(rng.choice([1, 1, 2, 3])):
-            k = rng.choice(["C", "C", "D", "D", "D", "S", "SC"])
+            k = rng.choice(mix)
             if k == "C":
                 jobs.append({"k": "C", "i": rng.randrange(nt)})
             elif k in ("D", "S") and nd:
